@@ -11,6 +11,6 @@ Act == IF "mask" \in DOMAIN lastAct' THEN [lastAct' EXCEPT !.mask = MaskSeq(@)] 
 TtxH == LET ids == SelectSeq(hl', LAMBDA i : "ttx" \in rec'[i].mask) IN [k \in 1..Len(ids) |-> <<rec'[ids[k]].fn, rec'[ids[k]].ud>>]
 GNext == Next /\ hist' = Append(hist, [act |-> Act, em |-> MaskSeq(emask'), n |-> Len(hl'), ttxh |-> TtxH])
 GSpec == GInit /\ [][GNext]_gvars
-Done == ntop = MaxTop /\ ~dl.on
+Done == ntop = MaxTop /\ ~dl.on /\ tx = "none" /\ nprobe = MaxProbe
 Dump == Done => PrintT(<<"TR", ToJson(hist)>>)
 =============================================================================
